@@ -339,6 +339,31 @@ def run_case(case):
                                           "detail": "sampler(e) at t=%.6g gives %.9g, e(sampled ingredients) %.9g" % (
                                               t, got_e[qi], want)})
                 return res
+    # sol.sampler: the same function bound to the solver's decision vector
+    if case.get("sol_sampler") and m.get("intg") in (None, "rk", "expl_euler") and t_hi > t_lo:
+        try:
+            b.ocp.solver("ipopt", {"ipopt.max_iter": 0, "ipopt.print_level": 0, "print_time": False,
+                                   "ipopt.hessian_approximation": "limited-memory"})
+            names_ = [n for n, _, _ in targets[:-1]]
+            try:
+                sol = b.ocp.solve_limited()
+            except Exception:
+                sol = b.ocp.non_converged_solution
+            s_ocp = b.ocp.sampler([b.syms[n] for n in names_])
+            s_sol = sol.sampler([b.syms[n] for n in names_])
+            tq2 = np.sort(rng.uniform(t_lo, t_hi, 8))
+            a_ = s_sol(tq2)
+            b_ = s_ocp(sol.gist, tq2)
+            res["evals"] += 1
+            res["counters"]["sol_sampler"] = 1
+            for xa, xb in zip(a_, b_):
+                if not np.allclose(np.array(xa, dtype=float), np.array(xb, dtype=float), rtol=1e-12, atol=1e-12, equal_nan=True):
+                    res["violations"].append({"kind": "sol-sampler", "mech": "C08|sol.sampler-differs-from-ocp.sampler",
+                                              "detail": "sol.sampler(x)(t) != ocp.sampler(x)(sol.gist, t)"})
+                    break
+        except Exception as e:  # noqa
+            if "do not appear in the constraints and objective" not in str(e):
+                res["violations"].append(C.exc_violation(ID, C.RockitRaised("sol.sampler", e), cls))
     res["nontrivial"] = res["counters"]["steps_fitted"] > 0
     res["sample"] = {"spec": C.spec_digest(spec), "refine": r, "feasible_point": how, "kind": case["kind"]}
     return res
